@@ -268,13 +268,14 @@ def w3_variables(check: Check) -> None:
     bad: dict[str, str] = {}
     cases = 0
     try:
-        for eng_names in (None, ("a", "b"), ("a", "x")):
+        for eng_names, disabled in ((None, ()), (("a", "b"), ()), (("a", "x"), ()), (("a", "b"), ("a",)), (("a", "b"), ("b",))):
             for own in ({}, {"k": "own-k"}, {"x": "own-x"}, {"a": "own-a"}):
                 cases += 1
                 seen: dict[str, Any] = {}
                 engine = None
                 if eng_names is not None:
-                    vs = [MObj("InputVariable", {"name": n_, "value": f"value-of-{n_}", "__len__": 1}) for n_ in eng_names]
+                    # a disabled variable still has a current value, and formulas see it like any other
+                    vs = [MObj("InputVariable", {"name": n_, "value": f"value-of-{n_}", "enabled": n_ not in disabled, "lock_range": False, "__len__": 1}) for n_ in eng_names]
                     engine = MObj("Engine", {"variables": vs, "input_variables": vs[:1], "output_variables": vs[1:], "__bool__": True})
 
                 def evaluate(ex_, e, recv, args, kw, seen=seen):
@@ -296,7 +297,7 @@ def w3_variables(check: Check) -> None:
                     got = ("raise", r_.cls)
                 except Internal as i_:
                     got = ("internal", f"{i_.cls}: {i_.why}")
-                what = f"engine variables {list(eng_names) if eng_names else 'none (no engine)'}, own variables {sorted(own)}"
+                what = f"engine variables {list(eng_names) if eng_names else 'none (no engine)'}{(' (' + ', '.join(disabled) + ' disabled)') if disabled else ''}, own variables {sorted(own)}"
                 clash = "x" in own or (eng_names is not None and "x" in eng_names) or (eng_names is not None and set(own) & set(eng_names))
                 if got[0] == "internal":
                     bad.setdefault("internal", f"{what}: internal error {got[1]}")
